@@ -1,10 +1,10 @@
 """Per-property job lists.  Each function takes a vcheck.Run and does the work of that property's check."""
-import os, json
+import os, json, re
 from vcheck import *
 
 
 def tlc_replay(run, name, module, cfg, family, profiles=('debug',), workers=None, simulate=None, timeout=1800,
-               coverage=False, timeout_ms=10000, extra=None, heap='8g', xss=None):
+               coverage=False, timeout_ms=10000, extra=None, heap='8g', xss=None, env=None):
     out = run.path(name + '.out')
     res = run_tlc(module, cfg, out, workers=workers, simulate=simulate, timeout=timeout, coverage=coverage,
                   seed=run.seed if simulate else None, heap=heap, xss=xss)
@@ -12,7 +12,7 @@ def tlc_replay(run, name, module, cfg, family, profiles=('debug',), workers=None
     if simulate:
         run.exhaustive = False
     for prof in profiles:
-        s = run_replay(family, out, profile=prof, timeout_ms=timeout_ms, extra=extra)
+        s = run_replay(family, out, profile=prof, timeout_ms=timeout_ms, extra=extra, env=getattr(run, 'replay_env', None) if env is None else env)
         run.add_replay(name + ':' + prof, s, family)
     try:
         os.remove(out)
@@ -24,11 +24,11 @@ def grammar(run, fam, family='syntax', profiles=('debug',)):
     tlc_replay(run, 'grammar-' + fam, 'MC_Grammar.tla', 'MC_Grammar_%s_%s.cfg' % (fam, run.tier), family, profiles=profiles, xss='256m')
 
 
-def parser_soup(run, cfgs, profiles=('debug',)):
+def parser_soup(run, cfgs, profiles=('debug',), family='verdict', env=None):
     """token soup lexed and parsed by the recogniser MODEL (Lexer.tla + Parser.tla); the real parser must give the same verdict:
     accepted with the same tree, or rejected at the same line."""
     for c in cfgs:
-        tlc_replay(run, 'parser-' + c, 'MC_Parser.tla', 'MC_Parser_%s.cfg' % c, 'verdict', profiles=profiles, xss='256m', timeout_ms=5000)
+        tlc_replay(run, 'parser-' + c, 'MC_Parser.tla', 'MC_Parser_%s.cfg' % c, family, profiles=profiles, xss='256m', timeout_ms=5000, env=env)
 
 
 def table(run, kinds_cfg):
@@ -48,9 +48,43 @@ def C03(run):
 
 
 def C14(run):
-    run.rule = ('laws of Laws.tla evaluated by TLC on every ordered pair of the universe (model tables), and every comparison / '
-                'logic / inc-dec case replayed on the implementation; non-trivial = result determined')
-    table(run, 'C14')
+    import subprocess
+    run.rule = ('the laws of Laws.tla are checked by TLC (a) on the model\'s tables for every ordered pair of the universe and (b) on the '
+                'IMPLEMENTATION\'s own tables: for every pair the harness records the real results of equality, ordering and logic in both '
+                'orders, truthiness, not, build-then-knock for k = 1..3 and compound vs expanded assignment for + - * /, and TLC evaluates the '
+                'same law formulas on the recorded table (TableTrace.tla).  The laws are the oracle, not the model\'s cells (those belong to '
+                'C03); non-trivial = distinct pairs')
+    out = run.path('laws.out')
+    res = run_tlc('MC_Table.tla', 'MC_Table_C14_%s.cfg' % run.tier, out)
+    run.add_tlc('laws-on-model', res)
+    trace = run.path('law.ndjson')
+    binp = build_harness('debug')
+    p = subprocess.run([binp, 'record', 'lawtable', '--in', out, '--out', trace], stdout=subprocess.PIPE, stderr=subprocess.PIPE, text=True)
+    if p.returncode != 0:
+        raise ToolError('lawtable recorder failed: ' + p.stderr[-800:])
+    os.remove(out)
+    tout = run.path('tabletrace.out')
+    res = run_tlc('TableTrace.tla', 'TableTrace.cfg', tout, workers=1, extra_env={'TRACE': trace}, depth_first=True, xss='64m', heap='2g')
+    lines = open(trace).read().splitlines()
+    run.jobs.append(dict(job='tabletrace', kind='trace-validation', module='TableTrace.tla', events=len(lines), accepted=res['ok'],
+                         states=res['distinct'], wall_s=round(res['wall'], 1), error=res['error']))
+    run.states += res['distinct']
+    run.transitions += res['states']
+    if res['ok']:
+        run.traces += len(lines)
+        run.evaluations += len(lines)
+        run.distinct_nontrivial += len(set(lines))
+        for l in lines[:2]:
+            run.samples.append(dict(job='tabletrace', trace_line=json.loads(l)))
+    else:
+        rejected = None
+        for l in open(tout, errors='replace'):
+            if l.startswith('<<"REJECTED"'):
+                rejected = l.strip()[:4000]
+        if rejected is None:
+            raise ToolError('TableTrace failed without a rejected event: %s (see %s)' % (res['error'], tout))
+        run.violations.append(dict(family=None, job='tabletrace', msg='a law of Laws.tla fails on the implementation\'s recorded table',
+                                   rec=None, rejected=rejected, trace=trace))
 
 
 def C06(run):
@@ -131,7 +165,28 @@ def C12(run):
         raise ToolError('specification self-test failed: the stale-suffix defect is not detected by WellFormed')
     run.jobs.append(dict(job='selftest-stale-suffix', kind='tlc-selftest', expected='Invariant WellFormed is violated', observed=st['error']))
     for c in (LEX_QUICK if run.tier == 'quick' else LEX_THOROUGH):
-        tlc_replay(run, 'lex-' + c, 'MC_Lex.tla', 'MC_Lex_%s.cfg' % c, 'lex')
+        tlc_replay(run, 'lex-' + c, 'MC_Lex.tla', 'MC_Lex_%s.cfg' % c, 'lex', extra=['--max-viol', '200000'])
+    # Equality with the model's token stream is only the fast path.  A stream that differs from the model's is judged by the
+    # property itself: TLC validates it against LexTrace.tla (slices, gaps, true positions); only a rejected stream is a violation.
+    differing = [v for v in run.violations if v.get('msg') == 'token stream differs from the model' and v.get('obs')]
+    if differing:
+        trace = run.path('differing.ndjson')
+        with open(trace, 'w') as f:
+            for v in differing:
+                f.write(json.dumps(dict(src=v['rec']['src'], toks=v['obs']['tokens'])) + '\n')
+        out = run.path('differing.out')
+        res = run_tlc('LexTrace.tla', 'LexTrace.cfg', out, workers=1, extra_env={'TRACE': trace}, depth_first=True, xss='64m', heap='2g')
+        accepted_upto = len(differing) if res['ok'] else 0
+        if not res['ok']:
+            for l in open(out, errors='replace'):
+                m = re.match(r'<<"REJECTED", (\d+)', l)
+                if m:
+                    accepted_upto = int(m.group(1)) - 1
+        # everything before the first rejected line satisfied the property; keep the rest as violations
+        keep = differing[accepted_upto:]
+        run.violations = [v for v in run.violations if v not in differing] + keep
+        run.jobs.append(dict(job='lex-differing-judged-by-property', kind='trace-validation', module='LexTrace.tla', events=len(differing),
+                             accepted_by_property=accepted_upto, still_violations=len(keep)))
     if run.tier == 'quick':
         record_validate(run, 'lextrace', 'lex', 'LexTrace.tla', 'LexTrace.cfg', n=160, maxlen=60)
     else:
@@ -143,13 +198,13 @@ def C01(run):
                 'token-class fragments = "token soup") plus TLC -simulate random long texts; each is parsed by the real parser in the '
                 'debug and the release profile in a supervised worker process (panic, abort and hang are observations) and an error '
                 'must render; the model itself checks Terminates / Progress / in-bounds slices; the recogniser model Parser.tla is total '
-                '(ParserTotal: a verdict for every soup text, top-level loop bounded) and its verdict (tree or error line) must be the real '
-                'parser\'s in both profiles; non-trivial = non-blank text')
+                '(ParserTotal: a verdict for every soup text, top-level loop bounded); non-trivial = non-blank text')
     run.assumptions += ['release-mode undefined behaviour without a symptom is not observable; the model checks the slice preconditions instead']
     quick = run.tier == 'quick'
     for c in (['core3', 'uni3', 'kw4', 'soupfull2', 'souptiny3'] if quick else ['core4', 'uni4', 'kw5', 'multi5', 'soupfull3', 'soupcore4', 'souptiny5']):
         tlc_replay(run, 'total-' + c, 'MC_Lex.tla', 'MC_Lex_%s.cfg' % c, 'total', profiles=('debug', 'release'), timeout_ms=5000)
-    parser_soup(run, ['full2', 'tiny3'] if quick else ['full3', 'core4', 'tiny5', 'stmt6'], profiles=('debug', 'release'))
+    # totality only: what the verdict is belongs to C02 / C13
+    parser_soup(run, ['full2', 'tiny3'] if quick else ['full3', 'core4', 'tiny5', 'stmt6'], profiles=('debug', 'release'), family='total')
     n = 300 if quick else 5000
     tlc_replay(run, 'total-sim', 'MC_Lex.tla', 'MC_Lex_sim.cfg', 'total', profiles=('debug', 'release'),
                simulate='num=%d' % n, workers=8, timeout_ms=5000)
@@ -167,13 +222,13 @@ INTERP_NOTE = ('the interpreter is a small-step abstract machine in TLA+ (Interp
                'after every completed statement (hook rrss_verif); non-trivial = more than one statement event')
 
 
-def interptrace(run):
+def interptrace(run, cfg='InterpTrace.cfg'):
     """impl -> spec: seeded random programs (20-120 statements, depth 4, functions, arrays, I/O) run on the real interpreter;
     TLC steps the abstract machine through each recorded run (InterpTrace.tla), snapshot by snapshot."""
     if run.tier == 'quick':
-        record_validate(run, 'interptrace', 'interp', 'InterpTrace.tla', 'InterpTrace.cfg', n=600, maxlen=100, xss='256m', parts=6)
+        record_validate(run, 'interptrace', 'interp', 'InterpTrace.tla', cfg, n=600, maxlen=100, xss='256m', parts=6)
     else:
-        record_validate(run, 'interptrace', 'interp', 'InterpTrace.tla', 'InterpTrace.cfg', n=9000, maxlen=160, xss='256m', parts=12, timeout=5000)
+        record_validate(run, 'interptrace', 'interp', 'InterpTrace.tla', cfg, n=9000, maxlen=160, xss='256m', parts=12, timeout=5000)
 
 
 TRACE_NOTE = ('; recorded runs of seeded random programs far beyond the enumerated bounds are validated by TLC against the same machine '
@@ -202,6 +257,9 @@ def C08(run):
 
 
 def C09(run):
+    # C09 is about crashes only: every replay of this check runs in crash-only mode (a different value or outcome is the business
+    # of C03-C08; a panic, abort, debug assertion or hang is a violation here)
+    run.replay_env = {'VH_CRASH_ONLY': '1'}
     run.rule = ('family ILL (44 statement forms x 12 operand variables x 12 parameter variables incl. function/variable name clashes, NaN, '
                 'negative and huge numbers) plus every other interpreter family, in debug and release builds, in supervised worker processes; '
                 + INTERP_NOTE)
@@ -212,7 +270,7 @@ def C09(run):
     grammar(run, 'e2e', family='e2e', profiles=('debug', 'release'))
     tlc_replay(run, 'table-C06', 'MC_Table.tla', 'MC_Table_C06_%s.cfg' % run.tier, 'table', profiles=('debug', 'release'))
     tlc_replay(run, 'table-C07', 'MC_Table.tla', 'MC_Table_C07_%s.cfg' % run.tier, 'table', profiles=('debug', 'release'))
-    interptrace(run)
+    interptrace(run, cfg='InterpTraceCrash.cfg')
 
 
 def C10(run):
@@ -329,7 +387,7 @@ def C13(run):
     run.assumptions += ['the catalogue is hand-written (context-independent by construction); for soup texts "the line of the offending token" is the recogniser model\'s']
     grammar(run, 'fault', family='fault')
     # beyond the catalogue: every token-soup text; the recogniser model decides acceptance and the error line
-    parser_soup(run, ['full2', 'tiny3', 'core3'] if run.tier == 'quick' else ['full3', 'core4', 'tiny5', 'stmt6'])
+    parser_soup(run, ['full2', 'tiny3', 'core3'] if run.tier == 'quick' else ['full3', 'core4', 'tiny5', 'stmt6'], env={'VH_REJECT_ONLY': '1'})
 
 
 def C20(run):
